@@ -17,6 +17,8 @@ pub use src::*;
 pub mod oracles;
 pub mod checks;
 pub mod stubs;
+pub mod dev;
+pub mod hcall;
 
 #[cfg(kani)]
 mod proofs;
